@@ -347,9 +347,15 @@ func (p *parser) parseTag() (ot.Tag, error) {
 
 func (p *parser) parseVariationValue() (float32, error) {
 	p.parseChar('=') // Optional.
+	p.skipSpaces()   // as strtod
 	start := p.pos
 	// go to the next space
 	for p.pos < len(p.data) && !isSpace(p.data[p.pos]) {
+		// upstream (hb_parse_double) reads a sign, digits, a fraction and an exponent :
+		// no "inf", "nan", hexadecimal or underscore
+		if c := p.data[p.pos]; !('0' <= c && c <= '9' || c == '+' || c == '-' || c == '.' || c == 'e' || c == 'E') {
+			return 0, errors.New("invalid variation value")
+		}
 		p.pos++
 	}
 	v, err := strconv.ParseFloat(string(p.data[start:p.pos]), 32)
